@@ -359,6 +359,34 @@ func (rm *ropeMatcher) run(pc, pos int, caps []int) ([]int, bool) {
 	return fail()
 }
 
+// reachThroughAtom: program counters reachable from the given rune instructions by consuming one
+// or more runes of class cls (over-approximation: any rune of the class at every step).
+func (rm *ropeMatcher) reachThroughAtom(start []int, cls *charClass) []int {
+	seen := map[int]bool{}
+	var out []int
+	work := append([]int{}, start...)
+	for len(work) > 0 {
+		rp := work[len(work)-1]
+		work = work[:len(work)-1]
+		in := &rm.prog.Inst[rp]
+		if !isRuneInst(in) || classRelation(in, cls) == 0 {
+			continue
+		}
+		nxt := int(in.Out)
+		if seen[nxt] {
+			continue
+		}
+		seen[nxt] = true
+		out = append(out, nxt)
+		runes, match := rm.epsClosure(nxt)
+		if match {
+			panic(ropeAmbiguous{"a regexp match could end inside a symbolic name"})
+		}
+		work = append(work, runes...)
+	}
+	return out
+}
+
 // ropeFindAll: all non-overlapping leftmost-first matches; each is the list of capture
 // boundaries (cell indexes, -1 for unset groups).
 func (m *Machine) ropeFindAll(re *regexp.Regexp, s Str, n int) (res [][]int, cells []cell, err string) {
@@ -397,10 +425,22 @@ func (m *Machine) ropeFindAll(re *regexp.Regexp, s Str, n int) (res [][]int, cel
 				if c.cls == nil {
 					return nil, nil, "regexp search crosses a symbolic segment of unknown character class"
 				}
-				// a match could also start at an interior point of the atom
+				// a match could also start at a point of the atom: follow every program state that some
+				// non-empty suffix of the atom (runes of its class) can reach, and continue after the atom;
+				// if none of them can complete a match, no match starts here whatever the name is
+				possible := false
 				for _, rp := range startRunes {
 					if classRelation(&prog.Inst[rp], c.cls) != 0 {
-						return nil, nil, "a regexp match could start inside a symbolic name"
+						possible = true
+					}
+				}
+				if possible {
+					for _, pc := range rm.reachThroughAtom(startRunes, c.cls) {
+						rm.dead = map[[2]int]bool{}
+						caps := make([]int, prog.NumCap)
+						if _, ok := rm.run(pc, st+1, caps); ok {
+							return nil, nil, "a regexp match could start inside a symbolic name"
+						}
 					}
 				}
 				continue
